@@ -56,13 +56,17 @@ def main():
             "kind_free_text": "repository-specific static analysis over the parsed source (stdlib ast): program model, "
                               "statement CFG with dominators and reaching definitions, term normal form over rational "
                               "polynomials with congruence-interned atoms, constructor-keyword provenance matrix, "
-                              "alias/effect summaries, write-site audit, writer/reader sibling agreement, literal tables",
+                              "alias/effect summaries, write-site audit, writer/reader sibling agreement, literal tables; canonical "
+                              "control-flow form, reach conditions on the CFG, gated reaching definitions, equivalence of a "
+                              "function with its reference form by value numbering over gated alternatives (sa/equiv.py)",
         }],
         "checks": checks,
         "not_applicable": na,
         "notes": "All checks are static: they parse /repo/discretisedfield on every run and never import or execute it. "
                  "Exit 0 held, 1 VIOLATION, 2 ANALYSIS-ERROR (anchor vanished / unrecognised form / floor not met). "
-                 "Known findings: /verif/KNOWN_FINDINGS.txt.",
+                 "Known findings: /verif/KNOWN_FINDINGS.txt. Corpora: seeded/ (80 independently produced regressions), benign/ (60 "
+                 "independently produced behaviour-preserving refactorings), reference/ (the form of every function the rules "
+                 "were confirmed against).",
     }
     with open(os.path.join(HERE, "MANIFEST.json"), "w") as fh:
         json.dump(man, fh, indent=1)
